@@ -26,6 +26,9 @@ def main():
         if want and not any(w in name for w in want):
             continue
         meta = json.load(open(os.path.join(d, "meta.json")))
+        if meta.get("obsolete"):
+            print(name, "skipped (obsolete):", meta["obsolete"][:80])
+            continue
         props = list(meta.get("checks", {}).keys()) or [meta["breaks_property"]]
         sh("git -C /repo worktree remove --force %s" % WT)
         rc, out = sh("git -C /repo worktree add -q -f --detach %s HEAD && git -C %s apply %s" % (WT, WT, os.path.join(d, "patch.diff")))
